@@ -1,6 +1,7 @@
 import Vegeta.Go.Proto
 import Vegeta.Model.GobFrame
 import Vegeta.Driver.C07
+import Vegeta.Model.GobValue
 /-! Driver operations of property C09 (ops are named `c09.<name>`); `c07.*` ops are forwarded.
 
 `c09.*bounds` ops print, for a whole stream, the byte offsets at which the model decoder has
@@ -56,6 +57,17 @@ def csvBounds : Nat → Nat → Bytes → List Nat × Term
         | .error e => ([], if e = eEOF then .eof else .err)
         | .panic => ([], .err)
 
+/-- end offsets of the value messages the gob decoder model turns into a result -/
+def gobBounds (s : Bytes) : List Nat × Term :=
+  let fb := frameBounds (s.length + 1) 0 s
+  let pf := parseFrames s
+  match Vegeta.Model.GobValue.stripPre Vegeta.Model.GobValue.preFrames pf.1 with
+  | none => ([], .err)
+  | some vals =>
+    let q := Vegeta.Model.GobValue.decValues vals
+    ((fb.1.drop Vegeta.Model.GobValue.preFrames.length).take q.1.length,
+      Vegeta.Model.GobValue.gobTerm pf.1 pf.2 q.2)
+
 def handle (op : String) (args : List String) : Option String :=
   if op.startsWith "c07." then Vegeta.Driver.C07.handle op args else
   match op with
@@ -69,6 +81,10 @@ def handle (op : String) (args : List String) : Option String :=
     let (b, _) ← bytes.run args
     let p := frameBounds (b.length + 1) 0 b
     pure (showNats p.1 ++ " | " ++ showFrameEnd p.2)
+  | "c09.gobbounds" => do
+    let (b, _) ← bytes.run args
+    let p := gobBounds b
+    pure (showNats p.1 ++ " | " ++ Vegeta.Driver.C07.showTerm p.2)
   | "c09.jsonbounds" => do
     let (b, _) ← bytes.run args
     let p := jsonBounds (b.length + 1) 0 b
